@@ -209,7 +209,7 @@ func (this *DatasetManager) createDataset(notificationId uuid.UUID, data []byte)
 	}
 	log.Infof("Create dataset: %s", id)
 	for _, partition := range this.datasets[id].partitions {
-		this.allocator.watch(partition)
+		this.allocator.watch(partition, true)
 	}
 	this.notificator.Notify(notificationId, nil, false)
 	return nil
@@ -281,7 +281,9 @@ func (this *DatasetManager) processSnapshot(data []byte) error {
 				return err
 			}
 			for _, partition := range this.datasets[id].partitions {
-				this.allocator.watch(partition)
+				// The raft groups of these partitions already exist. A node that does not have
+				// a log of a group yet must join it and must not bootstrap a log of its own.
+				this.allocator.watch(partition, false)
 			}
 		}
 	}
